@@ -1,6 +1,6 @@
 (* Proofs about the codecs of Model/ConfigModel.v: integer rendering / parsing, CSV splitting,
    round trips of ParseCSVInt, ParseErrorCodes, ParseCSVTraceEvent, rejection lemmas. *)
-From Coq Require Import ZArith List Bool QArith Lia Arith ZifyBool.
+From Coq Require Import ZArith List Bool Lia Arith ZifyBool.
 From HV Require Import Gen.GenConfig Gen.GenConfigTime Gen.GenConfigMain Spec.ConfigSpec Model.ConfigModel.
 Import ListNotations.
 Open Scope Z_scope.
@@ -313,40 +313,62 @@ Proof.
   induction (Z.to_nat w - length ds)%nat as [|k IH]; [reflexivity|]. cbn. f_equal. exact IH.
 Qed.
 
-Lemma errcode_item_parses : forall v, 0 <= v ->
-  py_int errcodes_int_base (errcodes_fmt_prefix ++ fmt_hex errcodes_fmt_width errcodes_fmt_upper v) = Some v.
+(* "0x" followed by the zero-padded hex digits of v reads back as v (int(x, 0) after the sign) *)
+Lemma hex_unsigned_parses : forall w u v, 0 <= v ->
+  py_int0_unsigned ([48; 120] ++ fmt_hex w u v) = Some v.
 Proof.
-  intros v Hv. unfold errcodes_int_base, errcodes_fmt_prefix, errcodes_fmt_width.
-  unfold py_int. cbn [Z.eqb]. unfold fmt_hex. replace (v <? 0) with false by lia.
+  intros w u v Hv. unfold fmt_hex. replace (v <? 0) with false by lia.
   rewrite zero_pad_digits.
-  set (ds := (repeat 0 (Z.to_nat 2 - length (to_digits 16 v)) ++ to_digits 16 v)).
+  set (ds := (repeat 0 (Z.to_nat w - length (to_digits 16 v)) ++ to_digits 16 v)).
   assert (Hr : Forall (fun d => 0 <= d < 16) ds).
   { apply Forall_app. split; [apply Forall_forall; intros x Hx; apply repeat_spec in Hx; lia|apply to_digits_range; lia]. }
   assert (Hne : ds <> []).
   { unfold ds. pose proof (to_digits_nonempty 16 v). destruct (repeat 0 _); cbn; [assumption|discriminate]. }
-  unfold py_int0. rewrite strip_num_noop.
-  2:{ cbn [app]. constructor; [apply plain_48|]. constructor; [apply plain_120|].
-      apply (Forall_map_digit_plain errcodes_fmt_upper 16); [lia|exact Hr]. }
-  cbn [app with_sign]. replace (48 =? 43) with false by reflexivity. replace (48 =? 45) with false by reflexivity.
-  cbn [py_int0_unsigned]. replace (negb (48 =? 48)) with false by reflexivity.
+  cbn [app py_int0_unsigned]. replace (negb (48 =? 48)) with false by reflexivity.
   replace ((120 =? 120) || (120 =? 88)) with true by reflexivity.
   unfold prefixed. destruct ds as [|d r] eqn:Hds; [contradiction|]. cbn [map].
   inversion Hr; subst. rewrite digit_char_not_us by lia.
-  change (digit_char errcodes_fmt_upper d :: map (digit_char errcodes_fmt_upper) r) with (map (digit_char errcodes_fmt_upper) (d :: r)).
+  change (digit_char u d :: map (digit_char u) r) with (map (digit_char u) (d :: r)).
   rewrite pdu_digits; [|lia|constructor; assumption|left; discriminate].
   f_equal. rewrite <- Hds. unfold ds. rewrite ofd_zeros. apply to_digits_value; lia.
 Qed.
 
-Lemma errcode_item_plain : forall v, 0 <= v ->
-  Forall plain (errcodes_fmt_prefix ++ fmt_hex errcodes_fmt_width errcodes_fmt_upper v) /\
-  exists r, errcodes_fmt_prefix ++ fmt_hex errcodes_fmt_width errcodes_fmt_upper v = 48 :: r.
+Lemma hex_plain : forall w u v, 0 <= v -> Forall plain ([48; 120] ++ fmt_hex w u v).
 Proof.
-  intros v Hv. unfold errcodes_fmt_prefix, errcodes_fmt_width, fmt_hex.
-  replace (v <? 0) with false by lia. rewrite zero_pad_digits. split.
-  - cbn [app]. constructor; [apply plain_48|]. constructor; [apply plain_120|].
-    apply (Forall_map_digit_plain errcodes_fmt_upper 16); [lia|].
-    apply Forall_app. split; [apply Forall_forall; intros x Hx; apply repeat_spec in Hx; lia|apply to_digits_range; lia].
-  - eexists. reflexivity.
+  intros w u v Hv. unfold fmt_hex. replace (v <? 0) with false by lia. rewrite zero_pad_digits.
+  cbn [app]. constructor; [apply plain_48|]. constructor; [apply plain_120|].
+  apply (Forall_map_digit_plain u 16); [lia|].
+  apply Forall_app. split; [apply Forall_forall; intros x Hx; apply repeat_spec in Hx; lia|apply to_digits_range; lia].
+Qed.
+
+(* every code, of either sign, is rendered as a literal that int(x, 0) reads back *)
+Lemma errcode_item_parses : forall v, py_int errcodes_int_base (errcodes_item v) = Some v.
+Proof.
+  intros v. unfold errcodes_int_base, py_int. cbn [Z.eqb]. unfold py_int0, errcodes_item, errcodes_neg_bound.
+  destruct (v <? 0) eqn:Hneg.
+  - unfold errcodes_neg_prefix, errcodes_neg_width.
+    change ([45; 48; 120] ++ fmt_hex 2 errcodes_neg_upper (- v)) with (45 :: ([48; 120] ++ fmt_hex 2 errcodes_neg_upper (- v))).
+    rewrite strip_num_noop by (constructor; [apply plain_45|apply hex_plain; lia]).
+    cbn [with_sign]. replace (45 =? 43) with false by reflexivity. replace (45 =? 45) with true by reflexivity.
+    rewrite hex_unsigned_parses by lia. cbn. f_equal. lia.
+  - unfold errcodes_fmt_prefix, errcodes_fmt_width.
+    rewrite strip_num_noop by (apply hex_plain; lia).
+    change ([48; 120] ++ fmt_hex 2 errcodes_fmt_upper v) with (48 :: ([120] ++ fmt_hex 2 errcodes_fmt_upper v)).
+    cbn [with_sign]. replace (48 =? 43) with false by reflexivity. replace (48 =? 45) with false by reflexivity.
+    change (48 :: ([120] ++ fmt_hex 2 errcodes_fmt_upper v)) with ([48; 120] ++ fmt_hex 2 errcodes_fmt_upper v).
+    apply hex_unsigned_parses. lia.
+Qed.
+
+(* ... is made of plain characters and does not start like the "any code" literal *)
+Lemma errcode_item_plain : forall v,
+  Forall plain (errcodes_item v) /\ exists c r, errcodes_item v = c :: r /\ (c =? 42) = false.
+Proof.
+  intros v. unfold errcodes_item, errcodes_neg_bound. destruct (v <? 0) eqn:Hneg.
+  - unfold errcodes_neg_prefix, errcodes_neg_width.
+    change ([45; 48; 120] ++ fmt_hex 2 errcodes_neg_upper (- v)) with (45 :: ([48; 120] ++ fmt_hex 2 errcodes_neg_upper (- v))).
+    split; [constructor; [apply plain_45|apply hex_plain; lia]|]. eexists _, _. split; reflexivity.
+  - unfold errcodes_fmt_prefix, errcodes_fmt_width. split; [apply hex_plain; lia|].
+    eexists 48, _. split; reflexivity.
 Qed.
 
 Lemma list_eqb_head_ne : forall c r d, (c =? d) = false -> list_eqb (c :: r) [d] = false.
@@ -376,30 +398,24 @@ Qed.
 Lemma join_head : forall sep c x r, exists t, join sep ((c :: x) :: r) = c :: t.
 Proof. intros sep c x r. destruct r; cbn; eexists; reflexivity. Qed.
 
-Lemma errcodes_roundtrip : forall l, Forall (fun v => 0 <= v) l ->
-  errcodes_parse (errcodes_unparse l) = Some l.
+Lemma errcodes_roundtrip : forall l, errcodes_parse (errcodes_unparse l) = Some l.
 Proof.
-  intros l Hl. destruct l as [|v0 r0]; [reflexivity|].
-  set (g := fun v => errcodes_fmt_prefix ++ fmt_hex errcodes_fmt_width errcodes_fmt_upper v).
-  change (errcodes_unparse (v0 :: r0)) with (join errcodes_join (map g (v0 :: r0))).
-  assert (Hit : Forall (fun x => Forall plain x /\ x <> []) (map g (v0 :: r0))).
+  intros l. destruct l as [|v0 r0]; [reflexivity|].
+  change (errcodes_unparse (v0 :: r0)) with (join errcodes_join (map errcodes_item (v0 :: r0))).
+  assert (Hit : Forall (fun x => Forall plain x /\ x <> []) (map errcodes_item (v0 :: r0))).
   { apply Forall_forall. intros x Hx. apply in_map_iff in Hx. destruct Hx as (v & <- & Hin).
-    rewrite Forall_forall in Hl. destruct (errcode_item_plain v (Hl v Hin)) as [Hp (r & Hr)].
-    split; [exact Hp|]. unfold g. rewrite Hr. discriminate. }
+    destruct (errcode_item_plain v) as [Hp (c & r & Hr & _)].
+    split; [exact Hp|]. rewrite Hr. discriminate. }
   destruct csv_literals as (Hsep & _ & Hj & _). unfold errcodes_parse. rewrite Hj, Hsep.
   rewrite strip_nows by (apply join_nows; exact Hit).
-  assert (Hstar : list_eqb (join [44] (map g (v0 :: r0))) errcodes_any = false).
-  { inversion Hl; subst. destruct (errcode_item_plain v0 ltac:(assumption)) as [_ (r & Hr)].
-    cbn [map]. unfold g at 1. rewrite Hr. destruct (join_head [44] 48 r (map g r0)) as (t & ->). reflexivity. }
+  assert (Hstar : list_eqb (join [44] (map errcodes_item (v0 :: r0))) errcodes_any = false).
+  { destruct (errcode_item_plain v0) as [_ (c & r & Hr & Hc)].
+    cbn [map]. rewrite Hr. destruct (join_head [44] c r (map errcodes_item r0)) as (t & ->).
+    unfold errcodes_any. cbn [list_eqb]. rewrite Hc. reflexivity. }
   rewrite Hstar. rewrite parse_csv_join; [|discriminate|exact Hit].
-  rewrite (map_opt_map_on _ g (fun v => 0 <= v)); [reflexivity| |exact Hl].
-  intros v Hv. apply errcode_item_parses. exact Hv.
+  rewrite (map_opt_map _ errcodes_item); [reflexivity|].
+  intros v. apply errcode_item_parses.
 Qed.
-
-(* ... but a negative code, which parse accepts, is rendered as a string parse rejects *)
-Lemma errcodes_roundtrip_negative_refuted :
-  exists s l, errcodes_parse s = Some l /\ errcodes_parse (errcodes_unparse l) = None.
-Proof. exists [45; 49], [-1]. split; vm_compute; reflexivity. Qed.
 
 Lemma errcodes_rejects_bad_item : forall s x,
   list_eqb (strip s) errcodes_any = false ->
@@ -445,7 +461,7 @@ Lemma trace_rejects_bad_item : forall s x,
   In x (parse_csv csv_sep s) -> index_of trace_event_names x 0 = None -> trace_parse s = None.
 Proof. intros s x Hin Hx. unfold trace_parse. apply (map_opt_none _ _ x Hin Hx). Qed.
 
-(* ---------------------------------------------------------------- ParseTimeout (the part that holds) *)
+(* ---------------------------------------------------------------- string lemmas used by Proofs/ConfigTimeoutProofs.v *)
 
 Lemma list_eqb_refl : forall a, list_eqb a a = true.
 Proof. induction a as [|x r IH]; [reflexivity|]. cbn. rewrite Z.eqb_refl, IH. reflexivity. Qed.
@@ -487,17 +503,6 @@ Proof.
   unfold digit_char. replace (d <? 10) with true by lia. lia.
 Qed.
 
-Lemma py_float_str_nonneg : forall n, 0 <= n -> py_float (str_of_nonneg n) = Some (inject_Z n).
-Proof.
-  intros n Hn. unfold py_float. rewrite strip_num_noop by (apply str_of_nonneg_plain; exact Hn).
-  destruct (head_digit n Hn) as (c & r & Heq & Hc).
-  pose proof (py_int10_str_nonneg n Hn) as Hp. pose proof (str_of_nonneg_digits n Hn) as Hd.
-  rewrite Heq in *. replace (c =? 43) with false by lia. replace (c =? 45) with false by lia.
-  unfold py_float_unsigned. rewrite span_not_absent.
-  - rewrite Hp. reflexivity.
-  - eapply Forall_impl; [|exact Hd]. intros x Hx. cbv beta in Hx. lia.
-Qed.
-
 Lemma last_digit : forall n, 0 <= n -> exists a c, str_of_nonneg n = a ++ [c] /\ 48 <= c <= 57.
 Proof.
   intros n Hn. pose proof (str_of_nonneg_nonempty n) as Hne. pose proof (str_of_nonneg_digits n Hn) as Hd.
@@ -508,53 +513,6 @@ Qed.
 Lemma timeout_default_unit_ok :
   nonempty timeout_default_unit && negb (mem_str timeout_default_unit time_allowed_default_units) = false.
 Proof. reflexivity. Qed.
-
-(* whole milliseconds below one second survive the round trip *)
-Lemma timeout_roundtrip_ms : forall n, 0 <= n < 1000 ->
-  faithful_rendering timeout_parse (timeout_unparse (n # 1000)) (n # 1000).
-Proof.
-  intros n Hn. unfold faithful_rendering, timeout_unparse.
-  unfold timeout_unparse_threshold, timeout_unparse_small_factor, timeout_unparse_small_suffix.
-  assert (Hlt : Qle_bool (inject_Z 1) (n # 1000) = false).
-  { unfold Qle_bool. cbn [Qnum Qden inject_Z]. lia. }
-  rewrite Hlt. cbn [negb].
-  assert (Ht : q_trunc ((n # 1000) * inject_Z 1000) = n).
-  { unfold q_trunc, Qmult. cbn [Qnum Qden inject_Z]. change (Z.pos (1000 * 1)) with 1000. apply Z.quot_mul. lia. }
-  rewrite Ht. unfold str_of_Z. replace (n <? 0) with false by lia.
-  unfold timeout_parse, parse_time. rewrite timeout_default_unit_ok.
-  unfold time_units. cbn [parse_time_units]. rewrite endswith_app.
-  rewrite (firstn_strip_suffix (str_of_nonneg n) [109; 115] (Z.to_nat 2)) by reflexivity.
-  rewrite py_float_str_nonneg by lia.
-  eexists. split; [reflexivity|]. unfold Qeq, Qdiv, Qmult, Qinv. cbn [Qnum Qden inject_Z]. lia.
-Qed.
-
-(* whole seconds from one second up survive the round trip *)
-Lemma timeout_roundtrip_s : forall n, 1 <= n ->
-  faithful_rendering timeout_parse (timeout_unparse (inject_Z n)) (inject_Z n).
-Proof.
-  intros n Hn. unfold faithful_rendering, timeout_unparse.
-  unfold timeout_unparse_threshold, timeout_unparse_large_suffix.
-  assert (Hle : Qle_bool (inject_Z 1) (inject_Z n) = true).
-  { unfold Qle_bool. cbn [Qnum Qden inject_Z]. lia. }
-  rewrite Hle. cbn [negb].
-  assert (Ht : q_trunc (inject_Z n) = n).
-  { unfold q_trunc. cbn [Qnum Qden inject_Z]. apply Z.quot_1_r. }
-  rewrite Ht. unfold str_of_Z. replace (n <? 0) with false by lia.
-  unfold timeout_parse, parse_time. rewrite timeout_default_unit_ok.
-  destruct (last_digit n ltac:(lia)) as (a & c & Heq & Hc).
-  unfold time_units. cbn [parse_time_units].
-  assert (E1 : endswith (str_of_nonneg n ++ [115]) [109; 115] = false).
-  { rewrite Heq, <- app_assoc. cbn [app]. apply endswith_2_false. lia. }
-  rewrite E1. rewrite endswith_app.
-  rewrite (firstn_strip_suffix (str_of_nonneg n) [115] (Z.to_nat 1)) by reflexivity.
-  rewrite py_float_str_nonneg by lia.
-  eexists. split; [reflexivity|]. unfold Qeq, Qdiv, Qmult, Qinv. cbn [Qnum Qden inject_Z]. lia.
-Qed.
-
-Lemma timeout_roundtrip_partial : forall n,
-  (0 <= n < 1000 -> faithful_rendering timeout_parse (timeout_unparse (n # 1000)) (n # 1000)) /\
-  (1 <= n -> faithful_rendering timeout_parse (timeout_unparse (inject_Z n)) (inject_Z n)).
-Proof. intros n. split; [apply timeout_roundtrip_ms | apply timeout_roundtrip_s]. Qed.
 
 Lemma csvint_rejects : forall s,
   (parse_csv csv_sep s = [] \/ exists x, In x (parse_csv csv_sep s) /\ py_int10 x = None) ->
